@@ -33,7 +33,8 @@
    expected-result tables, NumTheoryTrace uses it as the line number of the recorded calls. *)
 EXTENDS Integers, Sequences, FiniteSets, TLC
 
-CONSTANT MaxK        \* last value of the counter in the model-checking / generation walk
+CONSTANTS MaxK,      \* last value of the counter in the model-checking / generation walk
+          Stride     \* the walk is split into Stride interleaved chains (k, k+Stride, ...) so that TLC's workers share it
 
 VARIABLE k
 
@@ -198,8 +199,8 @@ Lemmas == /\ LemmaEuler(k) /\ LemmaJacobiZero(k) /\ LemmaJacobiSquare(k) /\ Lemm
           /\ LemmaModPow(k) /\ LemmaFourSquares(k) /\ LemmaFold(k) /\ LemmaGroup(k) /\ LemmaSafe(k)
 LemmasPairs == (k <= 40) => (LemmaCRT(k) /\ LemmaSqrtFactors(k))
 
-Init == k = 2
-Next == k < MaxK /\ k' = k + 1
+Init == k \in 2..(1 + Stride)
+Next == k + Stride <= MaxK /\ k' = k + Stride
 Spec == Init /\ [][Next]_k
 TypeOK == k \in 2..MaxK
 =============================================================================
